@@ -22,6 +22,19 @@ CHECKS = {
         technique="TLA+ spec + TLC exhaustive enumeration, behaviour replay into real code, TLC trace validation",
         design_ref="DESIGN.md section 5 C13",
     ),
+    "C18": dict(
+        level="model_checking",
+        text=("AacSyntax.tla is a bit-exact transcription of the AudioSpecificConfig and ADTS header syntax with a reference "
+              "parser and an Impl model of the library's sync-search loop; TLC enumerates the complete finite domain "
+              "(every supported configuration, every header, junk prefixes over the behaviour-relevant alphabet), checks that "
+              "the reference parser inverts the serialiser and that the loop finds the first sync pattern, and every element is "
+              "replayed through the real encoders/decoders, esds and sample-entry builders; random executions over the full "
+              "24-bit range are validated as traces by AacTrace.tla."),
+        note=("Trusted: TLC, the Go replayer. ADTS headers with CRC / MPEG-2 id cannot be produced by the encoder and are "
+              "judged as MODEL-DRIFT only. Extension frequency 2*sf must fit 24 bits for SetAACDescriptor."),
+        technique="TLA+ syntax spec + TLC exhaustive domain enumeration, behaviour replay, TLC trace validation",
+        design_ref="DESIGN.md section 5 C18",
+    ),
 }
 
 PENDING_REASON = "check not built yet in this revision (planned in DESIGN.md section 5); not claimed until its machinery exists"
